@@ -70,7 +70,12 @@ impl Stats {
     }
     pub fn merge(mut self, o: Stats) -> Stats {
         for (k, v) in o.counters {
-            *self.counters.entry(k).or_insert(0) += v;
+            let e = self.counters.entry(k.clone()).or_insert(0);
+            if k.starts_with("max_") {
+                *e = (*e).max(v);
+            } else {
+                *e += v;
+            }
         }
         for s in o.samples {
             if self.samples.len() < MAX_SAMPLES {
